@@ -44,6 +44,7 @@ let rec ex = function
                    (List.init (String.length bits) (String.get bits))), ex e)
   | L [A "intov"; e] -> Un (UIntoVar, ex e)
   | L [A "retry"; A n; a; b] -> Bin (BRetry (ni n), ex a, ex b)
+  | L [A "wany"; a; b] -> Bin (BWhenAny, ex a, ex b)
   | L [A "jfrom"; f] -> just_from (fn_of f)
   | L [A "defer"; e] -> defer (ex e)
   | L [A "then"; f; e] -> Un (UThen (fn_of f), ex e)
@@ -100,6 +101,18 @@ let () =
     | pre :: rest ->
       let (etoks, stoks) = split [] rest in
       let (sx, _) = parse (tokenize (String.concat " " etoks)) in
-      let rs = exec (ex sx) (pre = "1") (script_of stoks) in
-      String.concat ";" (List.map render (r_tr rs)) ^ " # roots=" ^ string_of_int (int_of_nat (r_roots rs))
+      (* exec, unfolded so that a batch marker "|" can be printed in front of the events of every script step
+         (and of the final destruction), as the harness does; the marker-free trace is exactly r_tr (exec ...) *)
+      let e = ex sx in
+      let script = script_of stoks in
+      let rs0 = run_start e (pre = "1") in
+      let buf = ref (List.map render (r_tr rs0)) in
+      let step rs rs' =
+        let n = List.length (r_tr rs) in
+        buf := !buf @ ("|" :: List.map render (List.filteri (fun i _ -> i >= n) (r_tr rs'))) in
+      let rs = List.fold_left (fun rs ev -> let rs' = run_ev e rs ev in step rs rs'; rs') rs0 script in
+      let rsf = run_end e rs in
+      step rs rsf;
+      assert (r_tr rsf = r_tr (exec e (pre = "1") script));
+      String.concat ";" !buf ^ " # roots=" ^ string_of_int (int_of_nat (r_roots rsf))
     | _ -> "ERR args")
